@@ -3,7 +3,7 @@
 import ast
 
 from ..report import rule
-from .. import norm, cfg as cfgmod, guards
+from .. import pm, norm, cfg as cfgmod, guards
 from ..model import AnalysisError
 from .common import calls_of, find_calls, returns_of, is_abstract_body, bind_args
 
@@ -97,7 +97,7 @@ def c13_r1(ctx):
     fs = prog.func("util.numeric.from_sortable")
 
     def int_branch(f):
-        for st in f.node.body:
+        for i, st in enumerate(f.node.body):
             if isinstance(st, ast.If) and "int" in norm.canon(st.test):
                 ops = []
                 for s2 in st.body:
@@ -105,7 +105,7 @@ def c13_r1(ctx):
                         for s3 in s2.body:
                             if isinstance(s3, ast.AugAssign):
                                 ops.append((type(s3.op).__name__, norm.canon(s3.value)))
-                return ops, norm.canon(st.test), [norm.canon(r.value) for r in ast.walk(ast.Module(body=st.orelse, type_ignores=[])) if isinstance(r, ast.Return)]
+                return ops, norm.canon(st.test), [norm.canon(r.value) for r in ast.walk(ast.Module(body=st.orelse + f.node.body[i + 1:], type_ignores=[])) if isinstance(r, ast.Return)]
         return None, None, None
     oe, ce, fe = int_branch(ts)
     od, cd, fd = int_branch(fs)
@@ -185,9 +185,10 @@ def c13_r2(ctx):
             raises = any(isinstance(x, ast.Raise) and "ValueError" in norm.canon(x.exc) for x in n_.body)
     ctx.ob(pn, ok and raises, "prepare_number rejects x < min_value or x > max_value with ValueError", detail=str(rng))
     mm = num.methods["_min_max"]
-    txt = norm.stmt_text(mm.node)
-    ctx.ob(mm, "from_sortable(numtype, bits, signed, 0)" in txt and "from_sortable(numtype, bits, signed, 2 ** bits - 1)" in txt,
-           "limits are the decodings of the smallest and largest sortable value")
+    rets = [norm.deep_canon(r.value, mm.node) for r in returns_of(mm) if r.value is not None]
+    ctx.ob(mm, rets == ["(from_sortable(self.numtype, self.bits, self.signed, 0), "
+                        "from_sortable(self.numtype, self.bits, self.signed, ((2 ** self.bits) - 1)))"],
+           "limits are the decodings of the smallest and largest sortable value", detail=str(rets))
 
 
 @rule("C13", "R3", "K9", "index-time and query-time use the same tiers and the same encoding",
@@ -200,7 +201,10 @@ def c13_r3(ctx):
     num = prog.cls("fields.NUMERIC")
     ix = num.methods["index"]
     ctx.saw(ix)
-    loops = [norm.canon(n.iter) for n in ast.walk(ix.node) if isinstance(n, ast.For) and norm.canon(n.target) == "shift"]
+    IA = pm.Alpha(ix)
+    loops = [norm.canon(n.iter) for n in ast.walk(ix.node) if isinstance(n, ast.For) and isinstance(n.target, ast.Name) and
+             any(isinstance(y, ast.Yield) and isinstance(y.value, ast.Tuple) and y.value.elts and
+                 IA.eq(y.value.elts[0], "self.to_bytes(num, %s)" % n.target.id) for y in ast.walk(n))]
     ctx.ob(ix, loops in (["xrange(0, self.bits, self.shift_step)"], ["range(0, self.bits, self.shift_step)"]),
            "one term per shift in range(0, bits, shift_step)", detail=str(loops))
     cq = prog.method("query.ranges.NumericRange", "_compile_query", inherited=False)
@@ -213,16 +217,29 @@ def c13_r3(ctx):
         m, probs = bind_args(calls[0], tr, skip_self=False)
         want = {"numtype": "field.numtype", "intsize": "field.bits", "signed": "field.signed", "start": "start", "end": "end",
                 "shift_step": "field.shift_step", "startexcl": "self.startexcl", "endexcl": "self.endexcl"}
-        got = {k: norm.canon(v) for k, v in (m or {}).items()}
-        ok = got == want and not probs
+        QA = pm.Alpha(cq)
+        QA.find(pm.stmts_of(cq.node), "field = ixreader.schema[self.fieldname]")
+        QA.find(pm.stmts_of(cq.node), "start = self.start")
+        QA.find(pm.stmts_of(cq.node), "end = self.end")
+        got = {k: QA.text(v) for k, v in (m or {}).items()}
+        ok = set(got) == set(want) and all(QA.eq(m[k], want[k]) for k in want) and not probs
         detail = str(got)
+    else:
+        QA = pm.Alpha(cq)
     ctx.ob(cq, ok, "tiered_ranges receives every argument at its own parameter", detail=detail)
-    stb = [norm.deep_canon(c.func, cq.node) for c in norm.calls_in(cq.node) if norm.canon(c.func) == "stb"]
-    ctx.ob(cq, bool(stb) and all(s_ in ("field.sortable_to_bytes", "ixreader.schema[self.fieldname].sortable_to_bytes") for s_ in stb),
+    cal = norm.aliases(cq.node)
+    stb = [QA.text(norm.substitute(c.func, cal)) for c in norm.calls_in(cq.node)
+           if (isinstance(c.func, ast.Name) and c.func.id in cal and norm.canon(cal[c.func.id]).endswith(".sortable_to_bytes"))
+           or (isinstance(c.func, ast.Attribute) and c.func.attr == "sortable_to_bytes")]
+    bounds = [a_ for c in norm.calls_in(cq.node) if norm.call_name(c) in ("Term", "TermRange") for a_ in c.args[1:3]]
+    enc_all = all(any(norm.call_name(x) == "sortable_to_bytes" or (isinstance(x.func, ast.Name) and x.func.id in cal)
+                      for x in norm.calls_in(norm.inline_defs(b_, cq.node))) for b_ in bounds)
+    ctx.ob(cq, len(stb) >= 3 and enc_all and all(s_ == "field.sortable_to_bytes" for s_ in stb),
            "bounds are encoded with the field's sortable_to_bytes", detail=str(stb))
     # prepare_number on both bounds
-    pn = [norm.canon(c) for c in norm.calls_in(cq.node) if norm.call_name(c) == "prepare_number"]
-    ctx.ob(cq, pn == ["field.prepare_number(start)", "field.prepare_number(end)"], "both bounds are range-checked by the field", detail=str(pn))
+    pn = [c for c in norm.calls_in(cq.node) if norm.call_name(c) == "prepare_number"]
+    ctx.ob(cq, len(pn) == 2 and QA.eq(pn[0], "field.prepare_number(start)") and QA.eq(pn[1], "field.prepare_number(end)"),
+           "both bounds are range-checked by the field", detail=str([QA.text(c) for c in pn]))
     ctx.saw(tr)
     fa = guards.Facts(tr)
     adj = {}
